@@ -59,6 +59,11 @@ deriving DecidableEq, Repr
 structure State where
   /-- ground truth: the user's current directory password -/
   dir : User → Option Pw
+  /-- ground truth: the account is not in a usable state (disabled, locked out, expired, password
+  expired, logon not permitted …): the directory refuses the bind even with the right password. It
+  does so with invalidCredentials; whatever it writes into the diagnostic message is not modelled,
+  because no diagnostic text turns a refusal into something else -/
+  disabled : User → Bool
   /-- the directory answers `success` to a simple bind with an empty password (RFC 4513 §5.1.2
   unauthenticated bind; Active Directory's default) -/
   anonBind : Bool
@@ -76,11 +81,14 @@ structure State where
   issued : List Signed
 
 def init : State :=
-  { dir := fun _ => none, anonBind := false, srv := [], pats := [], primary := fun _ => none, cache := fun _ => none,
+  { dir := fun _ => none, disabled := fun _ => false, anonBind := false, srv := [], pats := [], primary := fun _ => none, cache := fun _ => none,
     prim := .up, now := 0, confirmed := [], issued := [] }
 
 def upd (f : User → Option Rec) (u : User) (v : Option Rec) : User → Option Rec :=
   fun x => if x = u then v else f x
+
+/-- would the directory bind this user's entry with this password? -/
+def holds (s : State) (u : User) (pw : Pw) : Bool := s.dir u == some pw && !s.disabled u
 
 /-- the pattern whose answer is a verdict: the first one the directory does not answer with an error -/
 def firstPat (s : State) : Option Pat := s.pats.find? (fun p => p != Pat.malformed)
@@ -88,13 +96,13 @@ def firstPat (s : State) : Option Pat := s.pats.find? (fun p => p != Pat.malform
 /-- does the directory authenticate `u` with `pw` under the configured naming? (an empty password
 authenticates nobody; the first pattern that gets a verdict must name the user's entry) -/
 def dirAccepts (s : State) (u : User) (pw : Pw) : Bool :=
-  pw != 0 && (firstPat s == some Pat.entry) && s.dir u == some pw
+  pw != 0 && (firstPat s == some Pat.entry) && holds s u pw
 
 /-! ### `CheckLDAPUserPassword` and the server × pattern loops -/
 
 /-- what a reachable directory server answers to a bind with the DN of pattern `p` -/
 def patAnswer (s : State) (u : User) (pw : Pw) : Pat → Option Bool
-  | .entry => some (s.dir u == some pw)
+  | .entry => some (holds s u pw)
   | .noEntry => some false
   | .malformed => none
 
@@ -250,6 +258,8 @@ inductive Op
   | setServers (l : List Srv)
   | setPats (l : List Pat)
   | changePw (u : User) (pw : Option Pw)
+  /-- the account becomes unusable (disabled, locked out, expired …) or usable again -/
+  | setAccount (u : User) (usable : Bool)
   | setAnon (b : Bool)
   | advance (dt : Nat)
   | setPrim (p : Prim)
@@ -275,6 +285,7 @@ def stepWith (v : Variant) (s : State) : Op → State × Option Bool
   | .setServers l => ({ s with srv := l }, none)
   | .setPats l => ({ s with pats := l }, none)
   | .changePw u pw => ({ s with dir := fun x => if x = u then pw else s.dir x }, none)
+  | .setAccount u ok => ({ s with disabled := fun x => if x = u then !ok else s.disabled x }, none)
   | .setAnon b => ({ s with anonBind := b }, none)
   | .advance dt => ({ s with now := s.now + dt }, none)
   | .setPrim p => ({ s with prim := p }, none)
